@@ -267,14 +267,16 @@ Inductive prog :=
 | Seq (s : step) (k : prog)
 | If (c : cond) (th el : prog).
 
+Definition nonroot (p : path) : bool := match p with [] => false | _ => true end.
+
 Fixpoint do_step (x : step) (v : aval) (s : st) : st * res aval :=
   match x with
   | SRequire p => if present p s then (s, Ok v) else (s, Err OtherErr)
   | SEnsure p init =>
       if present p s then (s, Ok v)
       else if present (parent p) s then (add_elem p init s, Ok v) else (s, Err OtherErr)
-  | SRemove p => if present (parent p) s then (del_sub p s, Ok v) else (s, Err OtherErr)
-  | SAdd p init => if present (parent p) s then (add_elem p init s, Ok v) else (s, Err OtherErr)
+  | SRemove p => if nonroot p && present (parent p) s then (del_sub p s, Ok v) else (s, Err OtherErr)
+  | SAdd p init => if nonroot p && present (parent p) s then (add_elem p init s, Ok v) else (s, Err OtherErr)
   | SMap f => match f v with Ok v' => (s, Ok v') | Err e => (s, Err e) end
   | SCheck c k =>
       match k with
